@@ -209,8 +209,11 @@ class DeepONetDataset_Unique(torch.utils.data.Dataset):
         """
         # frist slice in branch dimension (dim 0):
         branch_idx = int(idx / self.trunk_batch_len)
-        a = (branch_idx * self.branch_batch_size) % len(self.branch_data_points)
-        b = ((branch_idx + 1) * self.branch_batch_size) % len(self.branch_data_points)
+        # a batch can not be larger than the data set (the modulo below would
+        # otherwise shrink the window to batch_size % len)
+        branch_size = min(self.branch_batch_size, len(self.branch_data_points))
+        a = (branch_idx * branch_size) % len(self.branch_data_points)
+        b = ((branch_idx + 1) * branch_size) % len(self.branch_data_points)
         if a < b:
             branch_points = self.branch_data_points[a:b]
             out_points = self.out_data_points[a:b]
@@ -227,8 +230,9 @@ class DeepONetDataset_Unique(torch.utils.data.Dataset):
             )
         # then in trunk dimension (dim 1), only for trunk and output:
         trunk_idx = idx % self.trunk_batch_len
-        a = (trunk_idx * self.trunk_batch_size) % len(self.trunk_data_points[0])
-        b = ((trunk_idx + 1) * self.trunk_batch_size) % len(self.trunk_data_points[0])
+        trunk_size = min(self.trunk_batch_size, len(self.trunk_data_points[0]))
+        a = (trunk_idx * trunk_size) % len(self.trunk_data_points[0])
+        b = ((trunk_idx + 1) * trunk_size) % len(self.trunk_data_points[0])
         if a < b:
             out_points = out_points[:, a:b, :]
             trunk_points = trunk_points[:, a:b, :]
@@ -313,6 +317,9 @@ class DeepONetDataset(torch.utils.data.Dataset):
         )
 
     def _slice_points(self, points, out_points, out_axis, batch_size, idx):
+        # a batch can not be larger than the data set (the modulo below would
+        # otherwise shrink the window to batch_size % len)
+        batch_size = min(batch_size, len(points))
         a = (idx * batch_size) % len(points)
         b = ((idx + 1) * batch_size) % len(points)
         if a < b:
